@@ -14,14 +14,14 @@ NoDef == [t |-> "none"]
 
 Probe == << T(<<"[">>), Out(Var(<<"a">>)), T(<<",">>), Out(Var(<<"b">>)), T(<<",">>), Out(Var(<<"g">>)), T(<<",">>), Out(Var(<<"gg">>)), T(<<"]">>) >>
 
-Ctx == [a |-> S(<<"p">>), gg |-> S(<<"c">>), l2 |-> L(<<I(1), I(2)>>)]
+Ctx == [a |-> S(<<"p">>), gg |-> S(<<"c">>), l2 |-> L(<<I(1), I(2)>>), l0 |-> L(<<>>)]
 Globals == [g |-> S(<<"G">>), gg |-> S(<<"g">>)]
 Files == [inc |-> Probe \o <<Set("a", Lit(I(8))), Set("q", Lit(I(1)))>> \o Probe,
           incq |-> <<Out(Var(<<"q">>))>>]
 
 \* the constructs: Wrap(k, body) puts body inside construct k, with probes before and after
 Kinds == <<"with_a", "with_b", "with_ab", "with_a_from_b", "for_a", "for_b", "macro_a", "macro_0", "if", "set_a", "set_b",
-           "include", "include_only", "autoescape", "filtertag", "ifchanged", "spaceless_like_if", "macro_ab_omit", "macro_g_omit", "widthratio_a", "spaceless">>
+           "include", "include_only", "autoescape", "filtertag", "ifchanged", "spaceless_like_if", "macro_ab_omit", "macro_g_omit", "widthratio_a", "spaceless", "for_empty">>
 
 Wrap(k, body) ==
   CASE k = "with_a" -> << [t |-> "with", pairs |-> <<[name |-> "a", e |-> Lit(I(1))]>>, body |-> body] >>
@@ -30,6 +30,8 @@ Wrap(k, body) ==
     [] k = "with_a_from_b" -> << [t |-> "with", pairs |-> <<[name |-> "a", e |-> Var(<<"b">>)]>>, body |-> body] >>
     [] k = "for_a" -> << [t |-> "for", key |-> "a", val |-> "", e |-> Var(<<"l2">>), rev |-> FALSE, sorted |-> FALSE, body |-> body, empty |-> <<>>] >>
     [] k = "for_b" -> << [t |-> "for", key |-> "b", val |-> "", e |-> Var(<<"l2">>), rev |-> FALSE, sorted |-> FALSE, body |-> body, empty |-> <<>>] >>
+    \* nothing to iterate over: the `empty` branch runs inside the loop's scope like the body would
+    [] k = "for_empty" -> << [t |-> "for", key |-> "b", val |-> "", e |-> Var(<<"l0">>), rev |-> FALSE, sorted |-> FALSE, body |-> <<T(<<"n", "o">>)>>, empty |-> body] >>
     [] k = "macro_a" -> << [t |-> "macro", name |-> "m1", params |-> <<[name |-> "a", def |-> NoDef]>>, body |-> body, export |-> FALSE],
                            Out([t |-> "call", name |-> "m1", args |-> <<Lit(I(5))>>]) >>
     [] k = "macro_0" -> << [t |-> "macro", name |-> "m0", params |-> <<>>, body |-> body, export |-> FALSE],
